@@ -21,6 +21,7 @@ import scen
 
 NEEDS_KERNEL = True
 R1, R2 = "post.params~(a,A)", "post.emit=draws"
+R3 = "kernel.a,A(exact twin)=Lean Q model"
 RULE = ("random problems x hand-built libraries, in-memory and file/pool paths, n_linear_samples 1..4; non-trivial iff "
         "un-capping lambda_K or dropping the jitter in the oracle moves (a, A) by > 100x tolerance (measured)")
 
@@ -31,6 +32,51 @@ def plan(ctx):
 
 def linear_names(pr):
     return ["K", "v0"] + [f"dv0_{j+1}" for j in range(pr.q)] + [f"v{l}" for l in range(1, pr.p)]
+
+
+def fstr(q):
+    q = F(q)
+    return f"{q.numerator}/{q.denominator}"
+
+
+_hx = {}
+
+
+def exact_a_vs_lean(ctx, g, pr, th, inp):
+    """R3: posterior mean / covariance left in the exact twin's work arrays by likelihood_worker(1) must equal the
+    Lean Q model's (a, A) computed from the helper's own inputs (pure model<->code tie: ctx.mismatch)"""
+    import exact
+    if id(pr) not in _hx:
+        _hx.clear()
+        _hx[id(pr)] = kern.exact_helper(pr)
+    hx = _hx[id(pr)]
+    need = ["M_T", "rv", "ivar", "mu", "Lambda", "A", "a", "n_linear", "n_times", "test_likelihood_worker"]
+    if not all(hasattr(hx, nm) for nm in need):
+        ctx.count("buffers_unavailable")
+        return
+    row = np.array([th["P"], th["e"], th["omega"], th["M0"], th["s"]])
+    try:
+        hx.test_likelihood_worker(exact.farr(row))
+    except ZeroDivisionError:
+        return
+    n, k = int(hx.n_times), int(hx.n_linear)
+    MT = np.asarray(hx.M_T)
+    m = ctx.model({"op": "kernel.evalq", "n": n, "k": k,
+                   "M": [fstr(MT[j, i]) for i in range(n) for j in range(k)], "y": [fstr(v) for v in np.asarray(hx.rv)],
+                   "ivar": [fstr(v) for v in np.asarray(hx.ivar)], "s": fstr(F(float(row[4]))),
+                   "mu": [fstr(v) for v in np.asarray(hx.mu)[:k]], "lam": [fstr(v) for v in np.asarray(hx.Lambda)[:k]]})
+    if "singular" in m:
+        return
+    diffs = []
+    if any(F(v) != core.rat(w) for v, w in zip(np.asarray(hx.a), m["a"])):
+        diffs.append("a")
+    A = np.asarray(hx.A)
+    if any(F(A[i, j]) != core.rat(m["A"][i][j]) for i in range(k) for j in range(k)):
+        diffs.append("A")
+    ctx.evaluated(R3, ("buf", g["index"], tuple(row)))
+    if diffs:
+        ctx.mismatch(R3, g, inp, dict(differing=diffs), None,
+                     "a, A of the exact-mode kernel twin must equal the Lean model's as rationals")
 
 
 def run_case(ctx, g):
@@ -154,6 +200,8 @@ def run_case(ctx, g):
                 ctx.count("model_sanity_checks")
                 if [core.rat(v) for v in mres["a"]] != pm["a"] or [[core.rat(v) for v in row] for row in mres["A"]] != pm["A"]:
                     raise core.Infra(f"Lean kernel model (a, A) disagrees with the exact oracle (case {g}, row {i})")
+        if r < 2:
+            exact_a_vs_lean(ctx, g, pr, th, inp)
         ctx.evaluated(R1, key, sample=dict(theta=th, mean=mean, a=a) if r == 0 else None)
         if bad:
             ctx.violation(R1, g, inp, dict(mean=mean, cov=cov), dict(a=a, A=A, tol=epsc),
